@@ -101,7 +101,7 @@ fn token_sig(t: &Token) -> &'static str {
 }
 
 pub fn run(a: &Args, rep: &mut Report) {
-    let n: u64 = if a.thorough() { 1_500_000 } else { 60_000 };
+    let n: u64 = if a.thorough() { 1_500_000 } else { 240_000 };
     macro_rules! m {
         ($t:ty) => {
             run_type::<$t>(a, rep, n)
